@@ -973,9 +973,10 @@ func (s *pstate) eval(v ssa.Value) *Term {
 	return leaf("?", fmt.Sprintf("%T", v))
 }
 
-// constCell: addr is (possibly through free variables of inlined closures) a local cell that holds a parameter captured
-// by closures: one store in the whole program text, in the entry block of the allocating function, of a Parameter; every
-// other use is a load or a closure binding whose body only loads. Loads of such a cell are the parameter itself.
+// constCell: addr is (possibly through free variables of inlined closures) a local cell that holds a value captured by
+// closures and never reassigned: one store in the whole program text, in the entry block of the allocating function and
+// before any closure binds the cell; every other use is a load or a closure binding whose body only loads. Loads of such a
+// cell are the stored (immutable SSA) value itself — a captured parameter, a captured `result := New()`.
 func (s *pstate) constCell(addr ssa.Value) ssa.Value {
 	for d := 0; d < 8; d++ {
 		fv, ok := addr.(*ssa.FreeVar)
@@ -1012,8 +1013,24 @@ func (s *pstate) constCell(addr ssa.Value) ssa.Value {
 				if v != ssa.Value(al) || x.Addr != v || val != nil || x.Block().Index != 0 {
 					return false
 				}
-				if _, isParam := x.Val.(*ssa.Parameter); !isParam {
-					return false
+				// the store must come before every closure that binds the cell and every direct load in the entry block
+				// (everything else in the function is dominated by the entry block)
+				for _, in := range x.Block().Instrs {
+					if in == ssa.Instruction(x) {
+						break
+					}
+					switch y := in.(type) {
+					case *ssa.MakeClosure:
+						for _, b := range y.Bindings {
+							if b == v {
+								return false
+							}
+						}
+					case *ssa.UnOp:
+						if y.X == v {
+							return false
+						}
+					}
 				}
 				val = x.Val
 			case *ssa.UnOp:
@@ -1179,6 +1196,16 @@ func mkBin(op token.Token, a, b *Term) *Term {
 		}
 	}
 	if op == token.EQL || op == token.NEQ {
+		// a boolean compared with a boolean constant is the boolean itself or its negation (`f(x) == wanted` after an
+		// entered helper was called with wanted = true / false)
+		for _, pr := range [][2]*Term{{a, b}, {b, a}} {
+			if cb, ok := pr[0].constBool(); ok && (pr[0].Leaf == "true" || pr[0].Leaf == "false") { // plain bool (a named bool type such as the node colour keeps its comparison); the other operand is boolean by typing
+				if cb == (op == token.EQL) {
+					return pr[1]
+				}
+				return mkNot(pr[1])
+			}
+		}
 		// nil against nil / against a fresh allocation: decided (an inlined helper returning nil, a just-built node)
 		isNil := func(t *Term) bool { return t.Op == "#" && t.Leaf == "nil" }
 		nonNil := func(t *Term) bool { return t.Op == "new" || t.Op == "makeslice" || t.Op == "makemap" || t.Op == "makechan" }
